@@ -5,5 +5,13 @@ package types
 // Contracts for the verification framework in /verif (comment-only file; compiled
 // only with -tags verif, where it contributes nothing but these comments).
 
+//@ // ---- C13: parameter validation, abstractly ----
+//@ // distParamsValid(s): Params.Validate accepts the parameters with abstract deep value s (uninterpreted; its meaning is
+//@ // the assumed contract of Validate below).
+//@ spec func distParamsValid(s int) bool
+//@ func (p Params) Validate() (err)
+//@   trusted
+//@   ensures (err == nil) == distParamsValid(snap(p))
+
 //@ // ---- declared effects (checked per call instruction by the effect checker; anything not listed is effect-free) ----
 //@ effects SetMaccPerms global.write
